@@ -195,7 +195,9 @@ Definition Greg (r : greg -> Z) (pv : kind -> Z) : Prop :=
   (r NFIN = (if (r DISP =? 1) && finset r then 1 else 0) /\ (r NFIN = 1 -> r FINCTX = r CTX /\ r FINQ = r TQ)) /\
   (r CRASH = 0 /\ r XREF < MAXC /\ r IREF < MAXC) /\
   (* whoever owes a retain is inside a call that borrowed a reference *)
-  pv KB = pv KX + pv KI - pv KPE - pv KPN.
+  pv KB = pv KBX + pv KBI - pv KPE - pv KPN /\
+  (* a borrowed reference is there: while calls borrow a level, its owners keep at least one reference of that level *)
+  (Z.min 1 (pv KBX) <= r XPOOL /\ Z.min 1 (pv KBI) <= r IPOOL).
 
 Definition hf (s : gst) (k : kind) : Z -> Z := fun t => held k (pcs s t) (gn s t).
 Definition Binv (s : gst) : Prop := forall k, bounded (hf s k) (priv s k).
@@ -257,7 +259,7 @@ Proof.
   destruct (Z.ltb_spec old (-1)) as [E3|E3]; cbn [negb]; intros H; injection H as <-; [right; left; auto|].
   right; right. split; [reflexivity|lia].
 Qed.
-Lemma hb_wf b : wfb b -> hb KX b + hb KI b = 1.
+Lemma hb_wf b : wfb b -> hb KBX b + hb KBI b = 1.
 Proof. destruct b; cbn; intros H; [reflexivity|reflexivity|exfalso; apply H; reflexivity]. Qed.
 
 Arguments hb k b : simpl nomatch.
@@ -268,7 +270,7 @@ Ltac split_ifs H :=
 Ltac simp_goal :=
   cbn [is_crash apply_ups setr greg_id Z.eqb Pos.eqb held held0 hb hk one fst snd app b2z].
 Ltac spec_kinds HL :=
-  pose proof (HL KX); pose proof (HL KI); pose proof (HL KE); pose proof (HL KQ); pose proof (HL KPE);
+  pose proof (HL KX); pose proof (HL KI); pose proof (HL KBX); pose proof (HL KBI); pose proof (HL KE); pose proof (HL KQ); pose proof (HL KPE);
   pose proof (HL KPN); pose proof (HL KD); pose proof (HL KXD); pose proof (HL KDP); pose proof (HL KB).
 Lemma Greg_bounds r pv : Greg r pv -> (forall k, 0 <= pv k) ->
   (-1 <= r XREF < 2147483647 /\ -1 <= r IREF < 2147483647) /\ pv KX <= r XREF + 1 /\ pv KI <= r IREF + 1.
@@ -286,8 +288,8 @@ Ltac conj_hyps := repeat match goal with H : _ /\ _ |- _ => destruct H end.
 Ltac b_facts :=
   repeat match goal with b : bsrc |- _ =>
     lazymatch goal with
-    | H : 0 <= hb KX b |- _ => fail
-    | _ => pose proof (hb_nonneg KX b); pose proof (hb_nonneg KI b)
+    | H : 0 <= hb KBX b |- _ => fail
+    | _ => pose proof (hb_nonneg KBX b); pose proof (hb_nonneg KBI b)
     end end;
   repeat match goal with H : wfb ?b |- _ => apply hb_wf in H end.
 Ltac leave_facts :=
@@ -295,21 +297,23 @@ Ltac leave_facts :=
 Ltac prep :=
   unfold Greg, finset, MAXC, f_OS_OBJECT_GLOBAL_REFCNT in *; conj_hyps; b_facts.
 Ltac finish :=
-  bool_hyps; leave_facts; try congruence; unfold sv in *;
+  bool_hyps; repeat match goal with H : _ \/ _ |- _ => destruct H end; bool_hyps; leave_facts; try congruence; unfold sv in *;
   repeat match goal with H : s32 (ea _) = _ |- _ => rewrite H in * end;
   simp_goal; cbn [held held0 hb hk one b2z] in *; s32_norm;
   repeat split; try lia.
 
 Lemma greg_step1 r pv p g e p' ups g' :
   Greg r pv -> wfpc p -> 0 <= g -> (forall k, held k p g <= pv k) -> (forall k, 0 <= pv k) ->
+  contract_r r p e = true ->
   tstep1 p e = Some p' -> effect1 r g p e = Some (ups, g') ->
   Greg (if is_crash p' then setr (apply_ups ups r) CRASH 1 else apply_ups ups r)
        (fun k => pv k + held k p' g' - held k p g) /\ 0 <= g'.
 Proof.
-  intros HG HW Hg HL HP Hts Hef.
+  intros HG HW Hg HL HP Hc Hts Hef.
   pose proof (Greg_bounds r pv HG HP) as BD.
   spec_kinds HL. spec_kinds HP. clear HL HP.
   destruct p; cbn [tstep1 effect1 wfpc] in *; try discriminate.
+  all: cbv beta iota delta [contract_r MAXE] in Hc.
   all: unfold guard, after_irel, lv_entry, wake_entry, wake_tail, wake_rel, end_pc in *.
   all: repeat match goal with c : kont |- _ => destruct c end.
   all: prep.
@@ -396,7 +400,7 @@ Lemma greg_step s t e s' : Inv s -> gstep s t e = Some s' -> Greg (regs s') (pri
 Proof.
   intros (HG & HB & HT) Hs. unfold gstep in Hs.
   destruct (tstep (pcs s t) e) as [p'|] eqn:Hts; [|discriminate].
-  destruct (effect (regs s) (gn s t) (pcs s t) e) as [[ups g']|] eqn:Hef; [|discriminate].
+  destruct (effect (regs s) (priv s) (gn s t) (pcs s t) e) as [[ups g']|] eqn:Hef; [|discriminate].
   injection Hs as <-. cbn [regs priv gn]. rewrite upd_same.
   pose proof (fun k => held_le s t k HB) as HL. pose proof (fun k => priv_nonneg s k HB) as HP.
   destruct (HT t) as [HW Hg].
@@ -450,7 +454,7 @@ Lemma inv_step s t e s' : Inv s -> gstep s t e = Some s' -> Inv s'.
 Proof.
   intros HI Hs. destruct (greg_step s t e s' HI Hs) as [G' Hg']. destruct HI as (HG & HB & HT).
   unfold gstep in Hs. destruct (tstep (pcs s t) e) as [p'|] eqn:Hts; [|discriminate].
-  destruct (effect (regs s) (gn s t) (pcs s t) e) as [[ups g']|] eqn:Hef; [|discriminate].
+  destruct (effect (regs s) (priv s) (gn s t) (pcs s t) e) as [[ups g']|] eqn:Hef; [|discriminate].
   injection Hs as <-. cbn [regs priv pcs gn] in *. rewrite upd_same in Hg'.
   assert (Wp' : wfpc p') by (eapply wf_tstep; [apply HT|exact Hts]).
   split; [exact G'|]. split.
@@ -484,7 +488,7 @@ Lemma gstep_shape s t e s' : gstep s t e = Some s' ->
     forall k, priv s' k = priv s k + held k p' g' - held k (pcs s t) (gn s t).
 Proof.
   unfold gstep. destruct (tstep (pcs s t) e) as [p'|]; [|discriminate].
-  destruct (effect (regs s) (gn s t) (pcs s t) e) as [[ups g']|]; [|discriminate].
+  destruct (effect (regs s) (priv s) (gn s t) (pcs s t) e) as [[ups g']|]; [|discriminate].
   intros H. injection H as <-. exists p', g'. cbn. auto.
 Qed.
 
@@ -538,7 +542,7 @@ Proof.
   pose proof (reach_inv s' R') as (G' & _ & _).
   assert (C0 : regs s' CRASH = 0) by (unfold Greg in G'; tauto).
   unfold gstep in Hs. destruct (tstep (pcs s t) e) as [p'|]; [|discriminate].
-  destruct (effect (regs s) (gn s t) (pcs s t) e) as [[ups g']|]; [|discriminate].
+  destruct (effect (regs s) (priv s) (gn s t) (pcs s t) e) as [[ups g']|]; [|discriminate].
   injection Hs as <-. cbn [pcs regs] in *. rewrite upd_same in E. subst p'. cbn [is_crash setr greg_id Z.eqb Pos.eqb] in C0.
   discriminate.
 Qed.
@@ -671,7 +675,7 @@ Proof.
   unfold is_access in Ha. apply andb_true_iff in Ha as [Ha Hno]. apply andb_true_iff in Ha as [Ha Hnr].
   apply andb_true_iff in Ha as [_ Hnc]. apply negb_true_iff in Hno, Hnr, Hnc.
   unfold gstep in Hs. destruct (tstep (pcs s t) e) as [p'|] eqn:Hts; [|discriminate].
-  destruct (effect (regs s) (gn s t) (pcs s t) e) as [[ups g']|] eqn:Hef; [|discriminate]. clear Hs.
+  destruct (effect (regs s) (priv s) (gn s t) (pcs s t) e) as [[ups g']|] eqn:Hef; [|discriminate]. clear Hs.
   unfold tstep, effect in *. rewrite Hno in *.
   pose proof (HZ KX) as ZX. pose proof (HZ KI) as ZI. pose proof (HZ KE) as ZE. pose proof (HZ KDP) as ZDP. pose proof (HZ KD) as ZD.
   destruct (pcs s t); cbn [wfpc] in W; cbn [held held0 hk one] in ZX, ZI, ZE, ZDP, ZD;
